@@ -1,7 +1,7 @@
 (* C17 — executable comparator used by the correspondence shards (gen/cases_*.v). *)
 From Coq Require Import List ZArith Bool Arith.
 Import ListNotations.
-Require Import C17.Generic C17.gen.Settings.
+Require Import C17.Generic C17.gen.Settings C17.Laws.
 
 Definition ev' := ev kid.
 Definition st' := state cid gs.
@@ -44,4 +44,24 @@ Fixpoint bad_cases (cs : list (list (ev' * expect))) (i : nat) : list nat :=
   match cs with
   | [] => []
   | h :: r => if agree h (gs0, []) then bad_cases r (S i) else i :: bad_cases r (S i)
+  end.
+
+(* the same observations against the REFERENCE stack semantics (Generic.srun with Laws.spec_new): true iff every
+   observation up to the first event outside the specification (exit that does not match the innermost open
+   block, wrong arity) agrees with the implementation's *)
+Definition sst' := sstate cid gs.
+Fixpoint agree_spec (h : list (ev' * expect)) (s : sst') : bool :=
+  match h with
+  | [] => true
+  | (e, x) :: r =>
+      match sstep cid gs get set kid kind_of spec_new s e, x with
+      | Some s', EOk d => diff_eqb (sparse all_cids 0 (fst (fst s'))) d && agree_spec r s'
+      | Some _, EErr => false
+      | None, _ => true
+      end
+  end.
+Fixpoint bad_cases_spec (cs : list (list (ev' * expect))) (i : nat) : list nat :=
+  match cs with
+  | [] => []
+  | h :: r => if agree_spec h (gs0, [], []) then bad_cases_spec r (S i) else i :: bad_cases_spec r (S i)
   end.
